@@ -316,3 +316,29 @@ M("c11-guard-around-loop", "C11", "C11.ISOLATE", (TPCS, "        if config is No
 M("c11-metric-help-unit-swapped", "C11", "C11.METRIC", (GRPC, "m.expression, m.namespace, m.help, m.unit)", "m.expression, m.namespace, m.unit, m.help)"))
 M("c11-watches-as-args", "C11", "C11.METRIC", (GRPC, "build_trigger(r.ID, r.path, r.line_number, dict(r.args), [w for w in r.watches],", "build_trigger(r.ID, r.path, r.line_number, dict(r.args), [],"))
 R("c11-stage-get", "C11", (TRG, "    if STAGE in args:\n        stage_ = args[STAGE]\n\n    position", "    if STAGE in args:\n        explicit = args[STAGE]\n        stage_ = explicit\n\n    position"))
+
+# ------------------------------------------------------------------ C06
+FCOL = "src/deep/processor/frame_collector.py"
+M("c06-dict-of-any-object", "C06", "C06.TOTAL", (VPF, "    elif hasattr(value, '__dict__'):\n        # not all objects", "    elif hasattr(value, '__class__'):\n        # not all objects"))
+M("c06-raw-key-names", "C06", "C06.TOTAL", (VPF, "NodeValue(func(type_name, safe_str(key)), value[key], safe_str(key))", "NodeValue(func(type_name, key), value[key], key)"))
+M("c06-unguarded-str", "C06", "C06.TOTAL", (VPF, "    try:\n        return str(value)\n    except Exception:\n        return f'{type(value)}@{id(value)}'", "    return str(value)"))
+M("c06-len-of-anything", "C06", "C06.TOTAL", (VPF, "    elif variable_type is dict \\\n            or variable_type.__name__ in LIST_LIKE_TYPES:", "    elif hasattr(var_value, '__len__'):"))
+M("c06-iterate-generators", "C06", "C06.TOTAL", (VPF, "    elif variable_type.__name__ in LIST_LIKE_TYPES:\n        return process_list_breadth_first(var_collector, parent_node, value)", "    elif hasattr(value, '__iter__'):\n        return process_list_breadth_first(var_collector, parent_node, value)"))
+M("c06-raw-str-result", "C06", "C06.TOTAL", (VSPF, "        return VariableId(var_id, name), safe_str(value)", "        return VariableId(var_id, name), str(value)"))
+M("c06-shared-table", "C06", "C06.INDEP", (SNAP, "frames, variables = collector.collect({}, self.var_cache)", "frames, variables = collector.collect(self.trigger_context.vars, self.var_cache)"))
+M("c06-shared-cache", "C06", "C06.INDEP", (SNAP, "frames, variables = collector.collect({}, self.var_cache)", "frames, variables = collector.collect({}, self.trigger_context.var_cache)"))
+M("c06-class-level-cache", "C06", "C06.INDEP", (ACX, "        self.var_cache = VariableCacheProvider()\n", "        self.var_cache = parent.var_cache\n"))
+M("c06-watch-own-cache", "C06", "C06.INDEP", (ACX, "        var_processor = VariableSetProcessor({}, self.var_cache)\n\n        try:", "        var_processor = VariableSetProcessor({}, VariableCacheProvider())\n\n        try:"))
+R("c06-isinstance-dict", "C06", (VPF, "    if variable_type is dict:\n        return process_dict_breadth_first(parent_node, variable_type.__name__, value)", "    if variable_type == dict:\n        return process_dict_breadth_first(parent_node, variable_type.__name__, value)"))
+
+# ------------------------------------------------------------------ C07
+M("c07-hash-of-type", "C07", "C07.ID", (VPF, "    identity_hash_id = str(id(node.value))\n    # guess the modifiers", "    identity_hash_id = str(id(type(node.value)))\n    # guess the modifiers"))
+M("c07-entry-after-children", "C07", "C07.ENTRY", (VPF, "    # add to lookup\n    var_collector.append_variable(var_id, variable)\n", "    # add to lookup\n    if not truncated:\n        var_collector.append_variable(var_id, variable)\n"))
+M("c07-children-on-cache-hit", "C07", "C07.CYCLE", (VPF, "return VariableResponse(VariableId(cache_id, node.name, modifiers, node.original_name), process_children=False)", "return VariableResponse(VariableId(cache_id, node.name, modifiers, node.original_name), process_children=True)"))
+M("c07-cache-reset", "C07", "C07.INJECT", (VSPF, "    @property\n    def size(self):\n        \"\"\"The number of variables we have cached.\"\"\"\n        return len(self.__cache)", "    def reset(self):\n        \"\"\"Reset.\"\"\"\n        self.__cache.clear()\n\n    @property\n    def size(self):\n        \"\"\"The number of variables we have cached.\"\"\"\n        return len(self.__cache)"))
+M("c07-id-not-size-based", "C07", "C07.INJECT", (VSPF, "        new_id = str(var_count + 1)", "        new_id = str(var_count % 1000 + 1)"))
+M("c07-optional-untested", "C07", "C07.OPTIONAL", (ACX, "            if variable_id.vid is None:\n                # the value was not recorded (the variable limit has been reached), so there is nothing to point at\n                return WatchResult(source, watch, None, \"variable limit reached\"), {}, log_str\n", ""))
+M("c07-watch-vars-not-merged", "C07", "C07.MERGE", (SNAP, "            snapshot.add_watch_result(result)\n            snapshot.merge_var_lookup(watch_lookup)\n", "            snapshot.add_watch_result(result)\n"))
+M("c07-child-to-wrong-parent", "C07", "C07.CHILD", (VSPF, "            child_nodes = process_child_nodes(self, var_id.vid, node_value.value, node.depth)", "            child_nodes = process_child_nodes(self, var_id.name, node_value.value, node.depth)"))
+M("c07-name-of-other", "C07", "C07.ID", (VPF, "    variable_id = VariableId(var_id, node.name, modifiers, node.original_name)", "    variable_id = VariableId(var_id, node.original_name, modifiers, node.original_name)"))
+R("c07-local-rename", "C07", (VPF, "    identity_hash_id = str(id(node.value))\n    # guess the modifiers", "    value_ = node.value\n    identity_hash_id = str(id(value_))\n    # guess the modifiers"))
